@@ -9,7 +9,8 @@ Decides (structure only):
  S3 results of builtin hash() (seed-dependent) never reach a message, a Violation field, a sort key or an ORDER BY;
  S4 who may write: no filesystem-mutating API is reachable from a lint entry point or a rule, except the allowlist;
     the same matcher must find the config-tooling writers (positive control);
- S5 every constant non-section key a rule reads from context.metadata is one the orchestrator writes.
+ S5 every constant non-section key a rule reads from context.metadata is one the orchestrator writes;
+ S6 helper objects that live as long as a rule re-bind their accumulating attributes on every entry.
 Not decided: staleness of path-keyed caches across edits (listed in evidence only).
 """
 
@@ -161,7 +162,14 @@ def check(run, ctx):
         for desc, loc in writes_in(fq):
             n_reach_write += 1
             if fq in WRITE_ALLOW:
-                run.ok(S4, f"{fq.replace('src.', '', 1)}:{desc}", f"allowed: {WRITE_ALLOW[fq]}", nontrivial=False)
+                # the allowance holds only for a self-deleting temporary file
+                f_ = repo.funcs[fq]
+                tmp_calls = [n for n in ast.walk(f_.node) if isinstance(n, ast.Call) and call_name(n) == "NamedTemporaryFile"]
+                self_deleting = all(any(k.arg == "delete" and isinstance(k.value, ast.Constant) and k.value.value is True for k in n.keywords) or not any(k.arg == "delete" for k in n.keywords) for n in tmp_calls)
+                if "NamedTemporaryFile" in desc and not self_deleting:
+                    run.finding(S4, fq.replace("src.", "", 1), "tempfile-not-self-deleting", f"{fq} creates its temporary database with delete=False: nothing on the lint path removes it (the rule's storage is never closed), so every run leaves a temp file behind", loc)
+                else:
+                    run.ok(S4, f"{fq.replace('src.', '', 1)}:{desc}", f"allowed: {WRITE_ALLOW[fq]}", nontrivial=False)
             else:
                 run.finding(S4, fq.replace("src.", "", 1), f"writes:{desc}", f"{fq} ({desc}) is reachable from a lint entry point: a lint run may create/modify/delete files", loc, path=cg.path_to(pr, fq))
     ctrl = 0
@@ -172,6 +180,10 @@ def check(run, ctx):
     clear = _write_sites(repo, cg, L, "src.cli.linters.code_smells._clear_dry_cache")
     (run.ok(S4, "cli _clear_dry_cache", "unlink only behind the explicit --clear-cache request", nontrivial=False) if clear else run.ok(S4, "cli _clear_dry_cache", "no write site", nontrivial=False))
     run.ok(S4, "reachability", f"{len([q for q in pr if q.startswith('src.')])} functions reachable from {len(roots)} lint roots inspected; {n_reach_write} write sites")
+
+    S6 = run.rule("S6", "long-lived helper objects (built in a rule's constructor) re-bind every attribute they accumulate into at the start of each externally called entry method", floor=40,
+                  decides="what one file (or one lint call) left in an analyzer/cache cannot leak into the verdict for the next file or call")
+    _s6(run, ctx, L, S6)
 
     S5 = run.rule("S5", "constant non-section metadata keys read by rules are written by Orchestrator.lint_file", floor=2)
     lf_f = repo.func(lf)
@@ -204,6 +216,82 @@ def check(run, ctx):
                 run.finding(S5, f"{r.short}[{k.key}]", "key-never-written", f"{k.func} reads metadata[{k.key!r}] but the orchestrator writes {sorted(written)}: the value is never there and the rule falls back to guessing from the file path", k.loc)
     run.extra["call_resolution"] = f"{cg.n_resolved}/{cg.n_calls}"
     return __doc__
+
+
+# --------------------------------------------------------------------------- S6
+S6_ACC_MUT = {"append", "extend", "add", "update", "setdefault", "insert", "remove", "discard", "pop", "popitem", "appendleft"}
+S6_EXEMPT = {
+    ("src.linter_config.ignore.IgnoreDirectiveParser", "_ignore_cache"): "memo of is_ignored(path) against patterns that are fixed for the parser's lifetime (staleness across edits of .thailintignore is listed, not decided)",
+    ("src.linters.dry.block_filter.BlockFilterRegistry", "_filters"): "registration API, filled once when the registry is built",
+    ("src.linters.dry.block_filter.BlockFilterRegistry", "_enabled_filters"): "configuration API (enable/disable), not per-file state",
+    ("src.linters.dry.inline_ignore.InlineIgnoreParser", "_ignore_ranges"): "accumulates over the files of one run by design; emptied by DRYRule.finalize through clear() (decided by S1)",
+}
+
+
+def _s6(run, ctx, L, S6):
+    repo, cg = ctx.repo, ctx.cg
+    rule_quals = {r.qual for r in L.rules}
+    longlived = set()
+    for r in L.rules:
+        init = repo.find_method(r.qual, "__init__")
+        if init is None:
+            continue
+        for q in cg.reach([init.qual]):
+            if q.startswith("new:src."):
+                longlived.add(q[4:])
+    longlived.add("src.linter_config.ignore.IgnoreDirectiveParser")
+    n_cls = 0
+    for cq in sorted(longlived - rule_quals):
+        cl = repo.classes.get(cq)
+        if cl is None:
+            continue
+        entries = []
+        for m in cl.methods.values():
+            if m.name.startswith("__"):
+                continue
+            if any(s["kind"] in ("call", "prop") and not s["caller"].startswith(cq + ".") for s in cg.inn.get(m.qual, ())):
+                entries.append(m)
+        if not entries:
+            continue
+        n_cls += 1
+        for e in entries:
+            seen = {}
+            todo = [e]
+            while todo:
+                m = todo.pop()
+                if m.qual in seen:
+                    continue
+                seen[m.qual] = m
+                for n in ast.walk(m.node):
+                    if isinstance(n, ast.Call) and isinstance(n.func, ast.Attribute) and isinstance(n.func.value, ast.Name) and n.func.value.id == "self":
+                        g = repo.find_method(cq, n.func.attr)
+                        if g is not None and g.cls is not None and g.cls.qual == cq:
+                            todo.append(g)
+            acc, reb = {}, set()
+            for m in seen.values():
+                for n in ast.walk(m.node):
+                    if isinstance(n, ast.Call) and isinstance(n.func, ast.Attribute) and n.func.attr in S6_ACC_MUT and isinstance(n.func.value, ast.Attribute) and isinstance(n.func.value.value, ast.Name) and n.func.value.value.id == "self":
+                        acc.setdefault(n.func.value.attr, f"{m.name}:{n.lineno} .{n.func.attr}()")
+                    if isinstance(n, ast.Assign):
+                        for t in n.targets:
+                            if isinstance(t, ast.Subscript) and isinstance(t.value, ast.Attribute) and isinstance(t.value.value, ast.Name) and t.value.value.id == "self":
+                                acc.setdefault(t.value.attr, f"{m.name}:{n.lineno} [k]=")
+                            if isinstance(t, ast.Attribute) and isinstance(t.value, ast.Name) and t.value.id == "self":
+                                if not any(isinstance(x, ast.Attribute) and x.attr == t.attr and isinstance(x.value, ast.Name) and x.value.id == "self" for x in ast.walk(n.value)):
+                                    reb.add(t.attr)
+                    if isinstance(n, ast.AugAssign) and isinstance(n.target, ast.Attribute) and isinstance(n.target.value, ast.Name) and n.target.value.id == "self":
+                        acc.setdefault(n.target.attr, f"{m.name}:{n.lineno} augmented assignment")
+            sym = f"{cq.replace('src.', '', 1)}.{e.name}"
+            bad = {a: w for a, w in acc.items() if a not in reb and (cq, a) not in S6_EXEMPT}
+            exempt = [a for a in acc if (cq, a) in S6_EXEMPT and a not in reb]
+            if bad:
+                for a, w in sorted(bad.items()):
+                    run.finding(S6, f"{sym}:{a}", "accumulates-without-reset", f"{cq}.{a} is accumulated into ({w}) when {e.name}() is called but never re-bound on that entry: the helper object lives as long as the rule, so data from an earlier file or an earlier lint call leaks into later verdicts", e.loc)
+            elif acc:
+                run.ok(S6, sym, f"accumulated attributes {sorted(acc)} are re-bound on entry" + (f" (exempt: {exempt})" if exempt else ""))
+            else:
+                run.ok(S6, sym, "no accumulating instance state", nontrivial=False)
+    run.extra["long_lived_helper_classes"] = n_cls
 
 
 # --------------------------------------------------------------------------- S1 helpers
